@@ -145,6 +145,7 @@ static bool pmatch(const struct shadow *s, const long p[4])
 /* ---------- operations */
 static void op_init(int ord, unsigned exp)
 {
+    alarm(20);      /* a history takes milliseconds: one that has not ended after 20 s hangs inside the library (recorded as a crash) */
     if (hp.heap != NULL) cmi_hashheap_terminate(&hp);
     memset(&hp, 0, sizeof hp);
     cmi_hashheap_initialize(&hp, (uint16_t)exp, ord == 0 ? NULL : ord_funcs[ord]);
@@ -308,6 +309,7 @@ int main(int argc, char **argv)
     if (argc < 2) { fprintf(stderr, "usage\n"); return 2; }
     signal(SIGABRT, crash_handler); signal(SIGSEGV, crash_handler);
     signal(SIGFPE, crash_handler);  signal(SIGBUS, crash_handler);
+    signal(SIGALRM, crash_handler);
     cmb_logger_flags_off(CMB_LOGGER_INFO);
     make_keys();
 
